@@ -4,8 +4,13 @@ import (
 	"bytes"
 	"encoding/binary"
 	"fmt"
+	"go/ast"
+	"go/parser"
+	"go/token"
 	"math/big"
 	"math/rand"
+	"os"
+	"path/filepath"
 	"regexp"
 	"runtime/debug"
 	"sort"
@@ -518,9 +523,87 @@ func fromSObs(l []lib.SObs) []sEntry {
 	return out
 }
 
+// timelineBoundaries reads livempd.go of the tree under test: does changeTimelineTimescale convert every
+// segment boundary on its own (a counting loop over the repeats of an S element inside the loop over
+// the S elements), or the first t and every d separately (no inner loop)? The model follows.
+func timelineBoundaries() (bool, string) {
+	root := os.Getenv("VERIF_REPO")
+	if root == "" {
+		root = "/repo"
+	}
+	path := filepath.Join(root, "cmd", "livesim2", "app", "livempd.go")
+	file, err := parser.ParseFile(token.NewFileSet(), path, nil, 0)
+	if err != nil {
+		return false, err.Error()
+	}
+	for _, d := range file.Decls {
+		f, ok := d.(*ast.FuncDecl)
+		if !ok || f.Name.Name != "changeTimelineTimescale" {
+			continue
+		}
+		inner := false
+		ast.Inspect(f.Body, func(n ast.Node) bool {
+			if rs, ok := n.(*ast.RangeStmt); ok {
+				ast.Inspect(rs.Body, func(m ast.Node) bool {
+					switch m.(type) {
+					case *ast.ForStmt, *ast.RangeStmt:
+						inner = true
+					}
+					return true
+				})
+			}
+			return true
+		})
+		return inner, ""
+	}
+	return false, "changeTimelineTimescale not found in " + path
+}
+
+// expandEntries lists (start, duration) of every segment of a timeline.
+func expandEntries(l []sEntry) [][2]int64 {
+	var out [][2]int64
+	t := int64(0)
+	for _, e := range l {
+		if e.HasT {
+			t = e.T
+		}
+		for i := int64(0); i <= e.R; i++ {
+			out = append(out, [2]int64{t, e.D})
+			t += e.D
+		}
+	}
+	return out
+}
+
+// mirrorsInMS: the subtitle timeline lists the video segments in milliseconds: as many segments, each
+// starting at the video segment's start in ms and lasting until the next start in ms. Returns "" or
+// what is wrong; offGrid = some video boundary is not a whole millisecond.
+func mirrorsInMS(video, sub []sEntry, ts int64) (what string, offGrid bool) {
+	v, s := expandEntries(video), expandEntries(sub)
+	for _, x := range v {
+		if (x[0]*1000)%ts != 0 || (x[1]*1000)%ts != 0 {
+			offGrid = true
+		}
+	}
+	if len(v) != len(s) {
+		return fmt.Sprintf("%d segments listed, video timeline has %d", len(s), len(v)), offGrid
+	}
+	for k := range v {
+		ws, we := roundDiv(v[k][0]*1000, ts), roundDiv((v[k][0]+v[k][1])*1000, ts)
+		if s[k][0] != ws {
+			return fmt.Sprintf("segment %d of the timeline starts at %d ms, the video segment at %d/%d = %d ms", k, s[k][0], v[k][0], ts, ws), offGrid
+		}
+		if s[k][1] != we-ws {
+			return fmt.Sprintf("segment %d of the timeline lasts %d ms, the video segment [%d,%d)/%d = [%d,%d) ms", k, s[k][1], v[k][0], v[k][0]+v[k][1], ts, ws, we), offGrid
+		}
+	}
+	return "", offGrid
+}
+
 // ---------------------------------------------------------------- run
 
 type runner struct {
+	bnd      bool // changeTimelineTimescale converts boundaries one by one (read from the source)
 	c        *lib.Ctx
 	terms    []string
 	nextID   int
@@ -608,6 +691,12 @@ func runC12(c *lib.Ctx) error {
 	debug.SetGCPercent(400)
 	rng := rand.New(rand.NewSource(c.Seed))
 	r := &runner{c: c, distinct: map[string]bool{}}
+	if b, problem := timelineBoundaries(); problem != "" {
+		c.Res.Notes = append(c.Res.Notes, "changeTimelineTimescale variant: "+problem)
+	} else {
+		r.bnd = b
+		c.Res.Notes = append(c.Res.Notes, fmt.Sprintf("changeTimelineTimescale in the tree under test converts every boundary on its own: %v", b))
+	}
 	scale := 1
 	if c.Thorough() {
 		scale = 10
@@ -774,14 +863,16 @@ func runC12(c *lib.Ctx) error {
 		c.Res.Inputs[id] = in
 		c.Count("changeTimelineTimescale")
 		r.evals++
-		for k := range ein {
-			if k >= len(eout) || eout[k].R != ein[k].R || eout[k].HasT != ein[k].HasT ||
-				(exact && (eout[k].D != roundDiv(ein[k].D*1000, ts) || (ein[k].HasT && eout[k].T != roundDiv(ein[k].T*1000, ts)))) {
-				c.Fail(id, "mpd-mirror", fmt.Sprintf("changeTimelineTimescale(%v, %d, 1000) = %v", ein, ts, eout), in)
-				break
+		if exact {
+			if what, off := mirrorsInMS(ein, eout, ts); what != "" {
+				key := "mpd-mirror"
+				if off {
+					key = "off-ms-grid:mpd-timeline-drift"
+				}
+				c.Fail(id, key, fmt.Sprintf("changeTimelineTimescale(%v, %d, 1000) = %v: %s", ein, ts, eout, what), in)
 			}
 		}
-		r.terms = append(r.terms, fmt.Sprintf("CScale %d %d 1000 %s %s %s", idn, ts, lib.Cbool(exact), entriesTerm(ein), entriesTerm(eout)))
+		r.terms = append(r.terms, fmt.Sprintf("CScale %d %s %d 1000 %s %s %s", idn, lib.Cbool(r.bnd), ts, lib.Cbool(exact), entriesTerm(ein), entriesTerm(eout)))
 	}
 
 	// ------------------------------------------------------------ 3. through the server
@@ -1288,34 +1379,17 @@ func (r *runner) mpdCase(ls *lib.Livesim, a *lib.TLAsset, sc subsCfg, cfg lib.TL
 		if vAS.HasTimeline {
 			ve, se := fromSObs(vAS.Entries), fromSObs(s.Entries)
 			exact := true
-			ok := len(ve) == len(se)
-			for k := range ve {
-				if !ok {
-					break
-				}
-				if se[k].R != ve[k].R || se[k].HasT != ve[k].HasT || se[k].D != roundDiv(ve[k].D*1000, vAS.Timescale) ||
-					(ve[k].HasT && se[k].T != roundDiv(ve[k].T*1000, vAS.Timescale)) {
-					ok = false
-				}
-			}
+			what, off := mirrorsInMS(ve, se, vAS.Timescale)
+			ok := what == ""
 			if !ok {
-				fail(fmt.Sprintf("SegmentTimeline %v, video %v at timescale %d", se, ve, vAS.Timescale))
-			}
-			// in milliseconds the expanded timeline must be the video's: every listed start is the video start in ms
-			if ok && len(s.Timeline) == len(vAS.Timeline) {
-				for k := range s.Timeline {
-					if s.Timeline[k].T != roundDiv(vAS.Timeline[k].T*1000, vAS.Timescale) {
-						key := "mpd-mirror"
-						if (vAS.Timeline[k].T*1000)%vAS.Timescale != 0 || (vAS.Timeline[0].D*1000)%vAS.Timescale != 0 {
-							key = "off-ms-grid:mpd-timeline-drift"
-						}
-						c.Fail(id, key, fmt.Sprintf("%s: %s: segment %d of the timeline starts at %d ms, the video segment at %d/%d = %d ms (rounded durations accumulate)", url, s.RepIDs[0], k, s.Timeline[k].T, vAS.Timeline[k].T, vAS.Timescale, roundDiv(vAS.Timeline[k].T*1000, vAS.Timescale)), in)
-						break
-					}
+				key := "mpd-mirror"
+				if off {
+					key = "off-ms-grid:mpd-timeline-drift"
 				}
+				c.Fail(id, key, fmt.Sprintf("%s: %s: %s (SegmentTimeline %v, video %v at timescale %d)", url, s.RepIDs[0], what, se, ve, vAS.Timescale), in)
 			}
-			r.terms = append(r.terms, fmt.Sprintf("CMpdTl %d %d %s %s %s", idn, vAS.Timescale, lib.Cbool(exact), entriesTerm(ve), entriesTerm(se)))
-			if ok && !listedDone && len(s.Timeline) == len(vAS.Timeline) {
+			r.terms = append(r.terms, fmt.Sprintf("CMpdTl %d %s %d %s %s %s", idn, lib.Cbool(r.bnd), vAS.Timescale, lib.Cbool(exact), entriesTerm(ve), entriesTerm(se)))
+			if !listedDone && len(s.Timeline) == len(vAS.Timeline) {
 				listedDone = true
 				if err := r.listedSegments(ls, a, sc, cfg, now, ts, generated, url, vAS, s); err != nil {
 					return err
